@@ -1,7 +1,7 @@
 SPECIFICATION Spec
 CONSTANTS
   D = 7
-  Width = 1
+  Width = 2
   Downs = TRUE
   ShapeSel = "small"
 INVARIANT ExportInv
